@@ -464,8 +464,6 @@ harnesses! {
     c05_bin_cmp { prop: C05, feat: "c05", tier: quick, mode: full, unwind: 3, caps: "run=2,clone=1,drop=2" } => |s| c05::ev_bin(s, 10, 16, 64);
     c05_bin_logic { prop: C05, feat: "c05", tier: quick, mode: full, unwind: 3, caps: "run=2,clone=1,drop=2" } => |s| c05::ev_bin(s, 16, 18, 64);
     c05_bin_mul24 { prop: C05, feat: "c05", tier: thorough, mode: full, unwind: 3, caps: "run=2,clone=1,drop=2" } => |s| c05::ev_bin(s, 2, 3, 24);
-    c05_bin_div24 { prop: C05, feat: "c05", tier: thorough, mode: full, unwind: 3, caps: "run=2,clone=1,drop=2" } => |s| c05::ev_bin(s, 3, 4, 24);
-    c05_bin_div64 { prop: C05, feat: "c05", tier: thorough, mode: full, unwind: 3, caps: "run=2,clone=1,drop=2" } => |s| c05::ev_bin(s, 3, 4, 64);
     c05_un { prop: C05, feat: "c05", tier: quick, mode: full, unwind: 3, caps: "run=2,clone=1,drop=2" } => |s| c05::ev_un(s);
     c05_func_sel { prop: C05, feat: "c05", tier: quick, mode: full, unwind: 7, caps: "run=2,clone=1,drop=2" } => |s| c05::ev_func(s, 0, 7, 64);
     c05_func_exp2 { prop: C05, feat: "c05", tier: quick, mode: full, unwind: 7, caps: "run=2,clone=1,drop=2" } => |s| c05::ev_func(s, 7, 8, 64);
@@ -619,7 +617,5 @@ harnesses! {
     c10_alias_ri_op18 { prop: C10, feat: "c10", tier: thorough, mode: leaf, unwind: 5, caps: "drop=1" } => |s| c10::bind_alias(s, 18, 19, 2);
     c10_alias_ri_op19 { prop: C10, feat: "c10", tier: thorough, mode: leaf, unwind: 5, caps: "drop=1" } => |s| c10::bind_alias(s, 19, 20, 2);
     c10_alias_ri_op20 { prop: C10, feat: "c10", tier: thorough, mode: leaf, unwind: 5, caps: "drop=1" } => |s| c10::bind_alias(s, 20, 21, 2);
-    p06_wrongseg_0 { prop: X06, feat: "c06", tier: thorough, mode: pass, unwind: 3, caps: "drop=1,loop:avra_lib::builder::pass1::pass_1_internal.0=2,loop:avra_lib::builder::pass2::pass_2_internal.0=2,loop:avra_lib::builder::pass1::build_pass_1.0=2,loop:avra_lib::builder::pass2::build_pass_2.0=2" } => |s| step::wrong_segment(s, 0);
-    p13_gate_pass2 { prop: X13, feat: "c13", tier: thorough, mode: pass, unwind: 3, caps: "drop=1,loop:avra_lib::builder::pass1::pass_1_internal.0=2,loop:avra_lib::builder::pass2::pass_2_internal.0=2,loop:avra_lib::builder::pass1::build_pass_1.0=2,loop:avra_lib::builder::pass2::build_pass_2.0=2" } => |s| step::gate_in_pass2(s);
     // (C08: c08.rs is kept for the record - the 3-line instance reached 8 GB after 11 min and is not registered)
 }
